@@ -1058,7 +1058,8 @@ class PathExec:
         if k == 'call':
             _, dst, callee, args, ret = st
             argv = [s.operand(fr, a) for a in args]
-            r = s.call(callee, argv)
+            if re.match(r'^(move|copy) [_(*]', callee): r = s.call_value(s.operand(fr, callee), argv)          # call through a function pointer held in a local
+            else: r = s.call(callee, argv)
             if ret is None: raise Unsupported(f'diverging call returned: {callee}')
             d = s.place(fr, dst)
             if d.frozen: raise Panic('WRITE-TO-FROZEN')
